@@ -152,13 +152,21 @@ class Run:
                 if self.usable(p) and (y is None or (self.usable(y) and self.kind[y] == "KPy")):
                     wi = len(self.weak)
                     run = self
-                    if y is None:
-                        def d(x, _i=wi):
-                            run.calls[_i] = run.calls.get(_i, 0) + 1
-                    else:
-                        def d(x, _i=wi, _y=self.held[y]):
-                            run.calls[_i] = run.calls.get(_i, 0) + 1
+                    re = op[4] if len(op) > 4 else 0
+                    box = []       # re-entrant destructors reach their own wrapper through a weak reference
+
+                    def d(x, _i=wi, _y=(self.held[y] if y is not None else None), _box=box, _re=re):
+                        run.calls[_i] = run.calls.get(_i, 0) + 1
+                        if run.calls[_i] > 3:
+                            return                      # a runaway recursion is cut: the count shows it
+                        me = _box[0]() if _box else None
+                        if me is not None and _re == 1:
+                            ffi.release(me)             # nested cdatagcp_finalize on the same wrapper
+                        elif me is not None and _re == 2:
+                            ffi.gc(me, None)            # Py_CLEAR(destructor) while the destructor runs
                     w = ffi.gc(self.held[p], d)
+                    if re:
+                        box.append(weakref.ref(w))
                     del d
                     assert self.new_id(w, "KGcp", True) == wi
                     self.calls.setdefault(wi, 0)
